@@ -378,6 +378,26 @@ class Gen:
             self.pool.append(e)
         return e
 
+    def fork_multi(self, d):
+        """a task returns the Thread of a MULTI-STEP expression (seq / cond / map_ / catch / lazy call keep being evaluated
+        under the forking job after it concluded); a later task joins it"""
+        r = self.rng
+        self.f("fork-multi-step-join")
+        k = r.randrange(7)
+        if k == 0:
+            return self.t("total")(self.t("joiner")(self.t("fork_seq")(r.randrange(1, 4))))
+        if k == 1:
+            return self.t("joiner")(self.t("fork_cond")(self.lit()))
+        if k == 2:
+            return self.t("total")(self.t("joiner")(self.t("fork_map")(r.randrange(1, 4))))
+        if k == 3:
+            return self.t("first")(self.t("joiner")(self.t("fork_catch")(r.choice(KINDS))))
+        if k == 4:
+            return self.t("joiner")(self.t("fork_lazy_call")(self.lit()))
+        if k == 5:
+            return self.t("joiner")(self.t("fork_deep")(r.randrange(0, 2), r.choice(KINDS)))
+        return self.t("first")(self.t("join_all")([self.t("fork_seq")(2), self.t("fork_map")(2)]))
+
     def ctx_int(self, d):
         """an int computed by tasks that read the context (default arguments / body), some with their own update_context"""
         r = self.rng
@@ -488,6 +508,8 @@ class Gen:
                 self.f("async")
                 return L.a_twice(g(d - 1))
             return self.t("twice")(g(d - 1))
+        if k == 13 and r.random() < 0.6:
+            return self.fork_multi(d)
         if k == 13:
             self.f("fork-join")
             return self.t("fork_join")(g(d - 1))
@@ -799,6 +821,8 @@ class Gen:
             return self.catch_all_multi(depth)
         if self.rng.random() < 0.08:
             return self.shared(depth)
+        if self.rng.random() < 0.05:
+            return self.fork_multi(depth)
         k = self.rng.randrange(10)
         if k <= 3:
             return self.int(depth)
